@@ -187,3 +187,38 @@ Definition check_tables (fx until : bool) (f : form) (I : impl)
   && same_meaning names (i_init I) (x_init M)
   && same_meaning names (i_trans I) (x_trans M)
   && all2 (same_meaning names) (i_win I) (x_win M).
+
+(* ------------------------------------------------------------------------
+   Fallback of the correspondence for a code change that only renumbers the
+   auxiliary variables: the values of the model's auxiliary variables along
+   given sequences (to match them with the implementation's), and the
+   renaming of the implementation's variables. *)
+Definition model_columns (fx until : bool) (f : form) (vs : list string)
+    (traces : list (list (list bool))) : list (string * list (list bool)) :=
+  map (fun t => (t_name t, map (fun tr => semL vs (t_tracks t) tr) traces))
+      (x_testers (translate fx until f)).
+
+Fixpoint assoc (v : string) (ren : list (string * string)) : string :=
+  match ren with
+  | [] => v
+  | (a, b) :: r => if String.eqb a v then b else assoc v r
+  end.
+
+Fixpoint rename (ren : list (string * string)) (f : tform) : tform :=
+  match f with
+  | TVar v => TVar (assoc v ren)
+  | TAtom a => TAtom a
+  | TConst b => TConst b
+  | TNot f => TNot (rename ren f)
+  | TBin o f g => TBin o (rename ren f) (rename ren g)
+  | TIte c a b => TIte (rename ren c) (rename ren a) (rename ren b)
+  | TNext f => TNext (rename ren f)
+  | TAlways f => TAlways (rename ren f)
+  | TEvent f => TEvent (rename ren f)
+  | TUntil f g => TUntil (rename ren f) (rename ren g)
+  end.
+
+Definition rename_impl (ren : list (string * string)) (I : impl) : impl :=
+  mkImpl (map (fun v => assoc v ren) (i_names I))
+         (rename ren (i_formula I)) (rename ren (i_init I))
+         (rename ren (i_trans I)) (map (rename ren) (i_win I)).
